@@ -163,6 +163,26 @@ func matrixCases() []*Case {
 	d := base("account", 0, 5, 5, "valid")
 	d.Payload = "deactivate"
 	out = append(out, d)
+	// records with an emptied member (an older release's, or damaged): the order without provisioner id or account
+	// id, the certificate without account id — asked for by the owner, by another account of the same provisioner,
+	// by an account of the other provisioner, under both provisioners
+	for _, bl := range []struct{ route, blank string }{{"order", "order-prov"}, {"finalize", "order-prov"}, {"order", "order-acct"},
+		{"finalize", "order-acct"}, {"cert", "cert-acct"}, {"revoke", "cert-acct"}} {
+		for prov := 0; prov < 2; prov++ {
+			for req := 0; req <= 2; req++ {
+				for own := 0; own <= 2; own++ {
+					for _, wh := range []string{"valid", "pending"} {
+						if wh == "pending" && !hasWhich(bl.route) {
+							continue
+						}
+						k := base(bl.route, prov, req, own, wh)
+						k.Blank = bl.blank
+						out = append(out, k)
+					}
+				}
+			}
+		}
+	}
 	// the jwk routes with a "kid" member inside the embedded jwk that names somebody else's key (its thumbprint
 	// is public), the requester's own, a deactivated account's, or nothing the server knows
 	for _, route := range []string{"newAccount", "revoke"} {
@@ -277,6 +297,14 @@ func genMatrix(r *c.Rng) *Case {
 	if r.Chance(1, 10) {
 		k.ProvSwap = true
 	}
+	if r.Chance(1, 12) {
+		switch route {
+		case "order", "finalize":
+			k.Blank = c.Pick(r, []string{"order-prov", "order-acct"})
+		case "cert", "revoke":
+			k.Blank = "cert-acct"
+		}
+	}
 	return k
 }
 
@@ -310,6 +338,14 @@ func shapeCorners() []*Case {
 			mk(route, func(k *Case) { k.J.Nonce = "near-space" }),
 			mk(route, func(k *Case) { k.J.Nonce = "near-lead" }),
 			mk(route, func(k *Case) { k.J.URL = "other" }),
+			mk(route, func(k *Case) { k.J.URL = "port-default" }),
+			mk(route, func(k *Case) { k.J.URL = "port-other" }),
+			mk(route, func(k *Case) { k.J.URL = "query" }),
+			mk(route, func(k *Case) { k.J.URL = "fragment" }),
+			mk(route, func(k *Case) { k.J.URL = "userinfo" }),
+			mk(route, func(k *Case) { k.J.URL = "slash" }),
+			mk(route, func(k *Case) { k.J.URL = "dot" }),
+			mk(route, func(k *Case) { k.J.URL = "escaped" }),
 			mk(route, func(k *Case) { k.J.URL = "absent" }),
 			mk(route, func(k *Case) { k.J.URL = "nonstring" }),
 			mk(route, func(k *Case) { k.J.URL = "case-id" }),
@@ -402,7 +438,7 @@ func genShape(r *c.Rng) *Case {
 		case 4:
 			k.J.Nonce = c.Pick(r, []string{"reused", "foreign", "empty", "absent", "otherprov", "near-pad", "near-pad2", "near-case", "near-trunc", "near-space", "near-lead"})
 		case 5:
-			k.J.URL = c.Pick(r, []string{"other", "absent", "nonstring", "case-id", "case-id", "case-path", "case-scheme", "case-host"})
+			k.J.URL = c.Pick(r, []string{"other", "absent", "nonstring", "case-id", "case-id", "case-path", "case-scheme", "case-host", "port-default", "port-other", "query", "fragment", "userinfo", "slash", "dot", "escaped"})
 		case 6:
 			k.J.KeyMode = c.Pick(r, []string{"kid", "jwk", "both", "neither"})
 		case 7:
